@@ -49,6 +49,7 @@ type node struct {
 	applied  int // commits applied since start
 	stopped  bool
 	// proposals pumped at this node, by id -> the client operation waiting for the reply
+	errC    chan error
 	waiting map[string]*cop
 	due     []*cop // operations whose entry has been applied here: their reply is on its way
 }
@@ -159,6 +160,7 @@ func (s *sim) startNode(n *node, peers []string) {
 	n.alive = true
 	applyC := make(chan *raftexample.RaftCommit)
 	errC := make(chan error)
+	n.errC = errC
 	s.guard(fmt.Sprintf("apply-loop-%d", n.id), func() {
 		server.VerifHandleClusterCommits(n.ctx, applyC, n.confC, n.mgr, n.callback, errC)
 	})
@@ -185,6 +187,7 @@ func (s *sim) startNode(n *node, peers []string) {
 				select {
 				case <-d:
 				case <-ctx.Done():
+					close(applyC)
 					return
 				}
 				if c.ApplyDoneC != nil {
@@ -203,6 +206,7 @@ func (s *sim) startNode(n *node, peers []string) {
 				n.cond.Broadcast()
 				n.mu.Unlock()
 			case <-ctx.Done():
+				close(applyC) // lets the apply loop of a killed node finish
 				return
 			}
 		}
@@ -343,6 +347,13 @@ func (s *sim) killNode(i int) {
 	n := s.nodes[i]
 	n.alive = false
 	n.cancel()
+	if n.errC != nil {
+		close(n.errC)
+		n.errC = nil
+	}
+	if n.mgr != nil && n.mgr.CurrentDB != nil {
+		n.mgr.CurrentDB.Raft = nil
+	}
 	n.rc.VerifCloseWAL() // releases the file locks held by this process; a dead process holds none
 	// in-flight messages from/to it stay in the network; its clients lose their connection
 	for _, c := range s.clients {
@@ -479,6 +490,12 @@ func (s *sim) close() {
 	}
 	fileutil.VerifSyncHook = nil
 	os.RemoveAll(s.root)
+	// connection handlers blocked on a reply that will never come keep their closure alive for
+	// ever (by design of the code under test): drop what they reference so that it can be collected
+	for _, n := range s.nodes {
+		n.rc, n.vn, n.mgr, n.callback, n.waiting, n.due = nil, nil, nil, nil, nil, nil
+	}
+	s.pool = nil
 	if ps := rt.TakeFreePanics(); len(ps) > 0 {
 		for _, p := range ps {
 			s.panics = append(s.panics, fmt.Sprintf("%s: %s in %s", p.Thread, p.Value, p.Func))
